@@ -1,4 +1,5 @@
 import XzVerif.Props.C03
 #print axioms Props.C03.C03_decodes_every_legal_segment
+#print axioms Props.C03.C03_reads_every_wellformed_stream
 #print axioms Props.C03.C03_content_independent_of_cap
 #print axioms Props.C03.C03_tables
